@@ -346,7 +346,7 @@ def run(prog: Program, res: Result) -> None:  # noqa: PLR0912, PLR0915
         if isinstance(c, ast.Call) and (dotted(c.func) or "") == "ReadOnlyChainMap":
             a = [norm(x) for x in c.args]
             what = f"copy(): ReadOnlyChainMap({', '.join(a)}) puts the namespace first"
-            if a and a[0] == "namespace" and len(a) == 2 and a[1] in ("self.globals", "self.scope"):
+            if a and a[0] == "namespace" and len(a) == 2 and a[1] in ("self.globals", "self.base_globals", "self.scope"):
                 res.ok("C10.R2", f"{cp.file}:{c.lineno} RenderContext.copy", what, "arguments shadow what the child inherits")
             else:
                 res.fail("C10.R2", file=cp.file, line=c.lineno, qualname="RenderContext.copy", construct=f"ReadOnlyChainMap({', '.join(a)})", message="in a copied context the passed namespace does not take priority", what=what)
